@@ -1,0 +1,7 @@
+//go:build !verif
+
+package control
+
+// verifObserveDomainRoutingBatch is a no-op outside verification builds (tag "verif").
+func verifObserveDomainRoutingBatch(update [][4]uint32, values []bpfDomainRouting, del [][4]uint32) {
+}
